@@ -15,12 +15,21 @@ or edits it (identity changed); both are parsed by the real `Parser`, and `Spec/
 Grammar sent to `drv_hashtext`:
     CASE <id>
     DEF <m|s> <name hex> <id> <N | R<hex> | L<fhex>:<thex>,..| L->        the variant's target as written
+    SRC <hex of physical line | ->..                                       its lines in the file (Model/YamlDef.lean loads them)
     KEY a <g|m> <name hex> <id> <fhex:thex,..|->                          identity in the base tree
     KEY b ...                                                              identity in the variant tree
     OBS <hex of MDF.raw of the variant> <sha256 hex base> <sha256 hex variant>
     END
-The driver answers CORR (model text == MDF.raw), TEXT <hex> (hashed here with hashlib and compared with MDF.hash)
-and PROP C13.
+The driver answers CORR (model text == MDF.raw), CORR (the model's own SHA-256 of that text == MDF.hash), TEXT <hex>
+(hashed here with hashlib and compared with MDF.hash a second time), HASH <model digest> <model hash32> and PROP C13.
+
+SHA-256 alone (Model/Sha256.lean against hashlib):
+    CASE <id> / SHA <2 hex per byte | -> <hashlib hexdigest> / END         bytes as given
+    CASE <id> / SHAT <6 hex per character | -> <hashlib hexdigest of text.encode()> / END   through the model's UTF-8
+The four outputs and the sender:
+    CASE <id> / DEF ... / OUTS <hex of MDF.raw> <MDF.hash> <py|-> <c|-> <js|-> <m|-> <v1,v2,..|-> / END    (hex numbers)
+answered by CORR (text), CORR (digest), CORR (model hash32 == int(MDF.hash[:8],16)), CORR (model hash32 == every value
+found) and PROP C13 (`Spec/HashText.lean: judgeOutputs` on the values found).
 """
 from __future__ import annotations
 
@@ -32,6 +41,7 @@ import json
 import logging
 import multiprocessing as mp
 import os
+import random
 import re
 import shutil
 import subprocess
@@ -57,7 +67,15 @@ def unhex(h: str) -> str:
 # tree -> YAML
 # --------------------------------------------------------------------------------------------------
 
-def _def_lines(d: Dict[str, Any], cm: int) -> List[str]:
+_COMMENT_TEXTS = ["note", "about the next field: text", "x: y", "id: 99", "fields: null", "a # b", "'quoted' \"text\"", "TODO", ""]
+
+
+def _def_lines(d: Dict[str, Any], cm: int, seed: Any = None) -> List[str]:
+    """the physical lines of one definition; cm 0 plain, 1/2 fixed comment styles, 3 decorated at random (seeded by
+    `seed` and the definition's name): indentation widths, blank lines, comment lines at any indentation, trailing
+    comments, trailing blanks, single / double quotes"""
+    if cm == 3:
+        return _def_lines_random(d, random.Random(f"{seed}:{d['name']}"))
     out = [f"  {d['name']}:" + ("   # the definition" if cm == 2 else "")]
     idl = None
     if d["kind"] == "m":
@@ -81,8 +99,58 @@ def _def_lines(d: Dict[str, Any], cm: int) -> List[str]:
     return out + (fl + [idl] if d.get("fields_first") else [idl] + fl)
 
 
+def _def_lines_random(d: Dict[str, Any], r) -> List[str]:
+    i1 = 2 + r.choice([1, 2, 2, 3, 4, 6])
+    i2 = i1 + r.choice([1, 2, 2, 4])
+
+    def tail():
+        x = ""
+        if r.random() < 0.4:
+            x += " " * r.randint(1, 3) + "#" + r.choice(["", " "]) + r.choice(_COMMENT_TEXTS)
+        elif r.random() < 0.25:
+            x += " " * r.randint(1, 3)
+        return x
+
+    def noise() -> List[str]:
+        ls: List[str] = []
+        while r.random() < 0.35:
+            k = r.random()
+            if k < 0.4:
+                ls.append(r.choice(["", "", "   ", " " * (i2 + 2)]))
+            else:
+                ls.append(" " * r.choice([0, 1, 2, i1, i2, i2 + 3, 11]) + "#" + r.choice(["", " "]) + r.choice(_COMMENT_TEXTS))
+        return ls
+
+    def quote(t: str) -> str:
+        k = r.random()
+        if d.get("quote") or k < 0.15:
+            return f'"{t}"'
+        if k < 0.3:
+            return f"'{t}'"
+        return t
+    out = [f"  {d['name']}:" + tail()]
+    idl: List[str] = []
+    if d["kind"] == "m":
+        v = d["id"]
+        idl = noise() + [" " * i1 + "id: " + (hex(v) if (d.get("hexid") or r.random() < 0.3) and v >= 0 else str(v)) + tail()]
+    f = d["fields"]
+    fl: List[str] = noise()
+    if f is None:
+        fl.append(" " * i1 + "fields:" + r.choice([" null", " ~", "", " null"]) + tail())
+    elif isinstance(f, str):
+        fl.append(" " * i1 + "fields: " + (f if r.random() < 0.7 else f'"{f}"') + tail())
+    else:
+        fl.append(" " * i1 + "fields:" + tail())
+        for n, t in f:
+            fl += noise()
+            fl.append(" " * i2 + f"{n}:" + " " * r.randint(1, 3) + quote(t) + tail())
+    body = (fl + idl) if (d.get("fields_first") or r.random() < 0.3) and idl else (idl + fl)
+    return out + body + noise()
+
+
 def file_text(f: Dict[str, Any], import_strings: List[str]) -> str:
     cm = f.get("comments", 0)
+    seed = f.get("decor_seed")
     out: List[str] = []
     if cm:
         out += ["# header comment: with a colon", ""]
@@ -97,13 +165,13 @@ def file_text(f: Dict[str, Any], import_strings: List[str]) -> str:
     if structs:
         out.append("struct_defs:")
         for d in structs:
-            out += _def_lines(d, cm)
+            out += _def_lines(d, cm, seed)
             if cm:
                 out.append("")
     if msgs:
         out.append("message_defs:")
         for d in msgs:
-            out += _def_lines(d, cm)
+            out += _def_lines(d, cm, seed)
             if cm == 2:
                 out += ["", "  # between definitions", ""]
     if not out or all((not l) or l.startswith("#") for l in out):
@@ -219,8 +287,8 @@ def rand_fields(rng, structs: List[str], kmin=1, kmax=5) -> List[List[str]]:
 def base_tree(rng) -> Tuple[Dict[str, Any], str]:
     """1-3 files; structs first; a target message; returns (tree, target name)"""
     nfiles = rng.choice([1, 2, 2, 3])
-    files = [{"path": ("" if i == 0 else f"inc{i}/") + f"defs{i}.yaml", "imports": [], "comments": rng.choice([0, 0, 1, 2]),
-              "consts": [], "defs": []} for i in range(nfiles)]
+    files = [{"path": ("" if i == 0 else f"inc{i}/") + f"defs{i}.yaml", "imports": [], "comments": rng.choice([0, 0, 1, 2, 3, 3]),
+              "decor_seed": rng.randrange(1 << 30), "consts": [], "defs": []} for i in range(nfiles)]
     for i in range(nfiles - 1):
         files[i]["imports"].append(i + 1)             # a chain: file i imports i+1 (deeper files are read first)
     if nfiles == 3 and rng.random() < 0.5:
@@ -303,10 +371,11 @@ def relocations(rng, tree, target) -> List[Tuple[str, Dict[str, Any]]]:
         f["path"] = f"moved/deeper{k}/" + os.path.basename(f["path"]).replace("defs", "other")
     out.append(("other_dirs", t))
     # comments and blank lines everywhere / nowhere
-    for cm in (0, 1, 2):
+    for cm in (0, 1, 2, 3, 3):
         t = copy.deepcopy(tree)
         for f in t["files"]:
             f["comments"] = cm
+            f["decor_seed"] = rng.randrange(1 << 30)
         out.append((f"comments{cm}", t))
     # the target alone in a new file imported by (or importing) the old one, with whatever it re-uses still visible
     t = copy.deepcopy(tree)
@@ -504,6 +573,11 @@ def def_tok(d: Dict[str, Any]) -> str:
     return f"DEF {d['kind']} {_hex(d['name'])} {d['id']} {ft}"
 
 
+def src_tok(f: Dict[str, Any], d: Dict[str, Any]) -> str:
+    """the physical lines of the definition exactly as `file_text` writes them"""
+    return "SRC " + " ".join(_hex(l) or "-" for l in _def_lines(d, f.get("comments", 0), f.get("decor_seed")))
+
+
 def key_tok(which: str, ident: Dict[str, Any]) -> str:
     return f"KEY {which} {'g' if ident['signal'] else 'm'} {_hex(ident['name'])} {ident['id']} {_pairs_tok(ident['fields'])}"
 
@@ -524,8 +598,8 @@ def run_pair(args) -> Dict[str, Any]:
         return rec
     da, db = ra["defs"][tname_a], rb["defs"][tname_b]
     vi, vj = _find(variant, tname_b)
-    lines = [f"CASE {cid}", def_tok(variant["files"][vi]["defs"][vj]), key_tok("a", ia), key_tok("b", ib),
-             f"OBS {_hex(db['raw'])} {da['hash']} {db['hash']}", "END"]
+    lines = [f"CASE {cid}", def_tok(variant["files"][vi]["defs"][vj]), src_tok(variant["files"][vi], variant["files"][vi]["defs"][vj]),
+             key_tok("a", ia), key_tok("b", ib), f"OBS {_hex(db['raw'])} {da['hash']} {db['hash']}", "END"]
     rec.update(lines=lines, hash_a=da["hash"], hash_b=db["hash"], raw_b=db["raw"], ident_a=ia, ident_b=ib,
                uses_ref=uses_ref(base, tname_a) or uses_ref(variant, tname_b))
     # every other definition of the variant tree: text correspondence only
@@ -535,7 +609,7 @@ def run_pair(args) -> Dict[str, Any]:
         for d in f["defs"]:
             if d["name"] != tname_b and d["name"] in rb["defs"]:
                 o = rb["defs"][d["name"]]
-                extra += [f"CASE {cid}x{k}", def_tok(d), f"OBS {_hex(o['raw'])} {o['hash']} {o['hash']}", "END"]
+                extra += [f"CASE {cid}x{k}", def_tok(d), src_tok(f, d), f"OBS {_hex(o['raw'])} {o['hash']} {o['hash']}", "END"]
                 rec.setdefault("extra_hash", {})[f"{cid}x{k}"] = o["hash"]
                 k += 1
     rec["extra_lines"] = extra
@@ -549,6 +623,72 @@ def run_pairs(jobs: List[Tuple], procs: Optional[int] = None) -> List[Dict[str, 
     ctx = mp.get_context("fork")
     with ctx.Pool(procs) as pool:
         return pool.map(run_pair, jobs, chunksize=max(1, len(jobs) // (procs * 8)))
+
+
+# --------------------------------------------------------------------------------------------------
+# SHA-256 of the model against hashlib
+# --------------------------------------------------------------------------------------------------
+
+NIST_VECTORS = [      # FIPS 180-4 / NIST CSRC "SHA-256 example" messages and CAVP short-message edge lengths
+    b"", b"abc", b"abcdbcdecdefdefgefghfghighijhijkijkljklmklmnlmnomnopnopq",
+    b"abcdefghbcdefghicdefghijdefghijkefghijklfghijklmghijklmnhijklmnoijklmnopjklmnopqklmnopqrlmnopqrsmnopqrstnopqrstu",
+    bytes([0xbd]), bytes.fromhex("c98c8e55"), bytes(55), bytes(56), bytes(57), bytes(64), bytes(1000), b"A" * 1000, b"U" * 1005,
+]
+NIST_DIGESTS = {      # written out (not recomputed) for the classic ones: hashlib itself is checked against them
+    b"": "e3b0c44298fc1c149afbf4c8996fb92427ae41e4649b934ca495991b7852b855",
+    b"abc": "ba7816bf8f01cfea414140de5dae2223b00361a396177a9cb410ff61f20015ad",
+    b"abcdbcdecdefdefgefghfghighijhijkijkljklmklmnlmnomnopnopq": "248d6a61d20638b8e5c026930c3e6039a33ce45964ff2167f6ecedd419db06c1",
+    b"abcdefghbcdefghicdefghijdefghijkefghijklfghijklmghijklmnhijklmnoijklmnopjklmnopqklmnopqrlmnopqrsmnopqrstnopqrstu":
+        "cf5b16a778af8380036ce59e7b0492370b249b11e8f07a51afac45037afee9d1",
+    bytes([0xbd]): "68325720aabd7c82f30f554b313d0570c95accbb7dc4b5aae11204c08ffe732b",
+    bytes.fromhex("c98c8e55"): "7abc22c0ae5af26ce93dbb94433a0e0b2e119d014f8e7f65bd56c61ccccd9504",
+    bytes(55): "02779466cdec163811d078815c633f21901413081449002f24aa3e80f0b88ef7",
+    bytes(56): "d4817aa5497628e7c77e6b606107042bbba3130888c5f47a375e6179be789fbb",
+    bytes(57): "65a16cb7861335d5ace3c60718b5052e44660726da4cd13bb745381b235a1785",
+    bytes(64): "f5a5fd42d16a20302798ef6ed309979b43003d2320d9f0e8ea9831a92759fb4b",
+    bytes(1000): "541b3e9daa09b20bf85fa273e5cbd3e80185aa4ec298e765db87742b70138a53",
+    b"A" * 1000: "c2e686823489ced2017f6059b8b239318b6364f6dcd835d0a519105a1eadd6e4",
+    b"U" * 1005: "f4d62ddec0f3dd90ea1380fa16a5ff8dc4c54b21740650f24afc4120903552b0",
+}
+MILLION_A = "cdc76e5c9914fb9281a1c7e284d73e67f1809a48a497200e046d39ccc7112cd0"
+
+
+def sha_cases(rng, n_random: int, big: bool) -> List[Tuple[str, str, Any]]:
+    """(kind, tag, payload): kind "b" = bytes, "t" = text (encoded by the model's own UTF-8)"""
+    out: List[Tuple[str, str, Any]] = [("b", "nist", v) for v in NIST_VECTORS]
+    for n in range(0, 200):                                   # every length across three block boundaries
+        out.append(("b", "len", bytes(rng.randrange(256) for _ in range(n))))
+    for _ in range(n_random):
+        n = rng.choice([rng.randrange(0, 80), rng.randrange(0, 300), rng.randrange(0, 2000)])
+        out.append(("b", "random", bytes(rng.randrange(256) for _ in range(n))))
+    pools = ["abcXYZ019_ :\n#", "\u00e9\u00df\u00f1\u0416\u03a9\u05d0", "\u20ac\u4e2d\u6587\uffee\u0800\uffff", "\U0001f600\U00010000\U0010ffff\U0002a6d6"]
+    for _ in range(max(50, n_random // 4)):
+        k = rng.randrange(0, 60)
+        pool = "".join(rng.sample(pools, rng.randint(1, 4)))
+        out.append(("t", "text", "".join(rng.choice(pool) for _ in range(k))))
+    for t in ["\x7f\x80\u07ff\u0800\uffff\U00010000", "\x00"]:
+        out.append(("t", "utf8_boundaries", t))
+    if big:
+        out.append(("b", "nist_million_a", b"a" * 1000000))
+    return out
+
+
+def sha_lines(cases) -> Tuple[List[str], Dict[str, Dict[str, Any]]]:
+    lines: List[str] = []
+    meta: Dict[str, Dict[str, Any]] = {}
+    for k, (kind, tag, v) in enumerate(cases):
+        cid = f"sha{k}"
+        data = v if kind == "b" else v.encode()
+        want = hashlib.sha256(data).hexdigest()
+        if kind == "b" and v in NIST_DIGESTS and NIST_DIGESTS[v] != want:
+            raise C.MachineryError(f"hashlib disagrees with the published digest of {v[:16]!r}")
+        if tag == "nist_million_a" and want != MILLION_A:
+            raise C.MachineryError("hashlib disagrees with the published digest of one million 'a'")
+        body = (data.hex() or "-") if kind == "b" else (_hex(v) or "-")
+        lines += [f"CASE {cid}", f"{'SHA' if kind == 'b' else 'SHAT'} {body} {want}", "END"]
+        meta[cid] = {"tag": "sha:" + tag, "kind": kind, "hex": data.hex() if len(data) <= 400 else data[:64].hex() + "...",
+                     "len": len(data), "hashlib": want}
+    return lines, meta
 
 
 # --------------------------------------------------------------------------------------------------
@@ -623,7 +763,7 @@ def outputs_check(tree: Dict[str, Any], names: List[str]) -> Dict[str, Any]:
                 rtma_compile([str(root)], str(outd), "gen_defs", python=True, javascript=True, matlab=True, c_lang=True)
             finally:
                 logging.disable(logging.NOTSET)
-        res: Dict[str, Any] = {n: {"parser": int(want[n][:8], 16), "full": want[n]} for n in names}
+        res: Dict[str, Any] = {n: {"parser": int(want[n][:8], 16), "full": want[n], "raw": p.message_defs[n].raw} for n in names}
         ctext = (outd / "gen_defs.h").read_text()
         jtext = (outd / "gen_defs.js").read_text()
         mtext = "\n".join(q.read_text() for q in outd.rglob("*.m"))
